@@ -94,13 +94,17 @@ JudgeCall(q) ==
 \* a: [M, pt, pc, tt, tc, rows |-> << [T, psat, rl, rlm, rg, rgm, h, pu |-> [unit |-> value]] >>]
 RowClauses(a, r) ==
    {c \in {"T inside (T_triple, T_critical)", "liquid density = molar density * M", "gas density = molar density * M",
-           "p_triple <= psat", "psat <= p_critical", "h_vap > 0"} :
+           "p_triple <= psat", "psat <= p_critical", "h_vap > 0",
+           "h_vap(press = psat(T)) > 0", "h_vap(press = psat(T)) = h_vap(temp = T)"} :
       ~ CASE c = "T inside (T_triple, T_critical)" -> DLt(a.tt, r.T) /\ DLt(r.T, a.tc)
           [] c = "liquid density = molar density * M" -> DClose(r.rl, DMul(r.rlm, a.M), DTol(6))
           [] c = "gas density = molar density * M" -> DClose(r.rg, DMul(r.rgm, a.M), DTol(6))
           [] c = "p_triple <= psat" -> DLeq(a.pt, r.psat)
           [] c = "psat <= p_critical" -> DLeq(r.psat, a.pc)
-          [] c = "h_vap > 0" -> DLt(DZero, r.h)}
+          [] c = "h_vap > 0" -> DLt(DZero, r.h)
+          \* the saturation point given as a PRESSURE (press= keyword): same state, same enthalpy
+          [] c = "h_vap(press = psat(T)) > 0" -> DLt(DZero, r.hp) /\ DLt(DZero, r.hlp)
+          [] c = "h_vap(press = psat(T)) = h_vap(temp = T)" -> DClose(r.hp, r.h, DTol(4)) /\ DClose(r.hlp, r.h, DTol(4))}
    \cup {"unit honoured: " \o u : u \in {v \in PresU : ~DClose(DMul(r.pu[v], UnitPa[v]), r.psat, UnitTol(v))}}
 MonoFails(a) == {i \in 1..(Len(a.rows) - 1) :
                    ~(DLt(a.rows[i].T, a.rows[i + 1].T) /\ DLt(a.rows[i].psat, a.rows[i + 1].psat))}
